@@ -38,4 +38,15 @@ InvSegmentation ==
 KwPrintf == Cp("-printf '")
 Text == KwPrintf \o Eager(Str) \o <<cSQ>>
 EmitVector == vSeq # <<>> => PrintT(ToJson([i |-> Text, e |-> ParseText(Text), tag |-> "C14"]))
+
+\* every printable character once after '%', after '\', after '%A' '%C' '%T', after '%{', as the last digit of an
+\* octal escape and alone (a table with one wrong or missing entry shows on ONE character)
+SweepChars == {c \in 33..126 : c # cSQ}
+SweepForms(c) == << <<cPCT, c>>, <<cBSL, c>>, <<97, cPCT, c, 98>>, <<97, cBSL, c, 98>>, <<cPCT, 65, c>>, <<cPCT, 67, c>>, <<cPCT, 84, c>>,
+                    <<cPCT, 123, c, 125>>, <<cBSL, 48, 49, c>>, <<cBSL, 49, c, 49>>, <<cBSL, c, 48, 49>>, <<c>>, <<cBSL, cBSL, c>>, <<cPCT, cPCT, c>> >>
+EmitSweep ==
+  vSeq = <<>> =>
+    \A c \in SweepChars : \A k \in 1..Len(SweepForms(c)) :
+      LET txt == KwPrintf \o SweepForms(c)[k] \o <<cSQ>> IN
+      PrintT(ToJson([i |-> txt, e |-> ParseText(txt), tag |-> "C14"]))
 =============================================================================
